@@ -165,7 +165,22 @@ def _run_shard(args):
     try:
         mod = importlib.import_module("vf.props." + prop.lower())
         mod.run(ctx, name, **kwargs)
-    except Exception:  # harness failure -> inconclusive, not a verdict
+    except Exception as e:
+        # An exception that was RAISED INSIDE the library and escaped through a call the harness makes unguarded (unguarded = the
+        # inputs are valid and the call has to succeed) is an observation about the library, not a harness failure.  Anything
+        # raised in harness code stays a harness failure -> inconclusive, not a verdict.
+        tb = traceback.extract_tb(e.__traceback__)
+        inner = tb[-1] if tb else None
+        libdir = os.path.join(os.environ.get("VERIF_REPO", "/repo"), "src", "ecdsa") + os.sep
+        if inner is not None and os.path.abspath(inner.filename).startswith(os.path.abspath(libdir)):
+            caller = [f for f in tb if "/vf/" in f.filename.replace(os.sep, "/")]
+            where = "%s:%s" % (os.path.basename(inner.filename)[:-3], inner.name)
+            ctx.count("shard_aborted_by_library_exception")
+            ctx.violation("library_raised_on_valid_input:%s@%s" % (type(e).__name__, where),
+                          "a call the harness makes with valid arguments raised %s: %s (raised in %s line %s; harness call site %s)" % (
+                              type(e).__name__, str(e)[:200], where, inner.lineno, ("%s:%d %s" % (os.path.basename(caller[-1].filename), caller[-1].lineno, (caller[-1].line or "")[:120])) if caller else "?"),
+                          dict(traceback=traceback.format_exc()[-3000:], shard=name))
+            return ctx.result()
         r = ctx.result()
         r["crash"] = traceback.format_exc()
         return r
